@@ -12,7 +12,8 @@ import Pog.Model.Diff
       object with properties / `pass`;
     * `sorted_props = sorted(schema.properties.items(), key=lambda item: (item[0] not in schema.required, item[0]))`
       (`sortProps`: stable insertion sort on the key `(bool, str)`; `str` compared by code point, `Pog.Diff.strLt`);
-    * field identifier = `sanitize_method_name(prop)` + the `_2, _3, …` loop  — REUSED: `Pog.fieldNames` (M-fresh);
+    * field identifier = `sanitize_method_name(prop)` (`field` ↦ `field_`: F5 repaired, `Pog.dcFieldBase`) + the `_2, _3, …` loop
+      — REUSED: `Pog.fieldNames` (M-fresh);
     * `field_mappings[prop] = field`, `default_expr` only for non-required properties, the `(maps from '…')` doc suffix;
     * `_get_field_default` branch for branch, the enum-member rule `str(default).upper().replace("-","_").replace(" ","_")`
       (`enumDefaultMember`, which is literally the first line of `EnumGenerator._generate_member_name_for_string_enum`,
